@@ -82,6 +82,9 @@ add("F82", "C09", "open", "years are applied before months through an intermedia
 add("F140", "C09", "fixed", "only one long and one short month name per language survived config loading: '12 subat 2020' (tr) evaluated to 2032",
     c09({"Literal": {"y": 2020, "m": 2, "d": 12, "spell": {"DMonY": [1, 0, 0]}}}, lang="tr"), commit="c2bb967")
 
+add("F160", "C09", "fixed", "'May 31, 1926' was 'No more token' under '.' decimals without a thousands separator: the comma after the day stayed inside the number literal and made it unparsable (it only parsed under the other conventions by accident)",
+    {"sub": "dates", "case": {"lang": "en", "shape": {"Literal": {"y": 1926, "m": 5, "d": 31, "spell": {"MonDY": [0, 0, 0, True]}}}, "tz": None, "seps": 2}}, commit="4441755")
+
 # ---- C11 -------------------------------------------------------------------------------------
 def tlit(h, m, s=None, form=0):
     return {"h": h, "m": m, "s": s, "form": form, "mcase": 0}
